@@ -237,24 +237,27 @@ theorem openOn_widen (S E : Int → Int) (lo hi a1 a2 b1 b2 d : Int) (mS : StepM
       omega
 
 /-- the right-hand side of the pairing theorem on two runs of years -/
-theorem pairSpec_run (S E : Int → Int) (a1 : Int) (na : Nat) (b1 : Int) (nb : Nat) (d : Int)
-    (hna : 1 ≤ na) (sHi : d < S (a1 + na - 1)) :
+theorem pairSpec_run (S E : Int → Int) (a1 : Int) (na : Nat) (b1 : Int) (nb : Nat) (d : Int) :
     PairSpec ((yearRun a1 na).map S) ((yearRun b1 nb).map E) d ↔
       OpenOn S E a1 (a1 + na - 1) b1 (b1 + nb - 1) d := by
   unfold PairSpec OpenOn
   simp only [List.mem_map, mem_yearRun]
   constructor
-  · rintro (⟨s, ⟨k, hk, rfl⟩, hle, hno⟩ | ⟨hall, _⟩)
-    · exact ⟨k, by omega, by omega, hle, fun j hj1 hj2 => hno (E j) ⟨j, ⟨by omega, by omega⟩, rfl⟩⟩
-    · have := (hall (S (a1 + na - 1)) ⟨a1 + na - 1, ⟨by omega, by omega⟩, rfl⟩).1
-      omega
+  · rintro ⟨s, ⟨k, hk, rfl⟩, hle, hno⟩
+    exact ⟨k, by omega, by omega, hle, fun j hj1 hj2 => hno (E j) ⟨j, ⟨by omega, by omega⟩, rfl⟩⟩
   · rintro ⟨k, hk1, hk2, hle, hno⟩
-    left
     refine ⟨S k, ⟨k, ⟨by omega, by omega⟩, rfl⟩, hle, ?_⟩
     rintro x ⟨j, hj, rfl⟩
     exact hno j (by omega) (by omega)
 
 /-! ### class (c): both bounds without a year -/
+
+/-- within the offset bound the cap of `yearSpan` (the whole calendar) is not reached -/
+theorem yearSpan_small (so eo : DateOffset) (h1 : -100000 ≤ so.days ∧ so.days ≤ 100000)
+    (h2 : -100000 ≤ eo.days ∧ eo.days ≤ 100000) :
+    yearSpan so eo = 3 + (so.days.natAbs + eo.days.natAbs) / 365 := by
+  unfold yearSpan
+  omega
 
 theorem yearSpan_bounds (so eo : DateOffset) (h1 : -100000 ≤ so.days ∧ so.days ≤ 100000)
     (h2 : -100000 ≤ eo.days ∧ eo.days ≤ 100000) : 3 ≤ yearSpan so eo ∧ yearSpan so eo ≤ 551 := by
@@ -548,7 +551,7 @@ theorem dated_window_eq (s : DateSpec) (so : DateOffset) (e : DateSpec) (eo : Da
       ((yearRun b1 nb).filterMap (proj e eo false))) = datedOk s so e eo d := by
   have hy : 1899 ≤ year d ∧ year d ≤ 9999 := year_window h1 h2
   have hw := yearSpan_bounds so eo hs.small he.small
-  have hwdef : yearSpan so eo = 3 + (so.days.natAbs + eo.days.natAbs) / 365 := rfl
+  have hwdef : yearSpan so eo = 3 + (so.days.natAbs + eo.days.natAbs) / 365 := yearSpan_small so eo hs.small he.small
   have nS := year_sub_near d so.days
   have nE := year_sub_near d eo.days
   have hss := hs.small
@@ -578,10 +581,8 @@ theorem dated_window_eq (s : DateSpec) (so : DateOffset) (e : DateSpec) (eo : Da
   have sortS := run_map_sorted S 0 20000 a1 na mS (by omega) (by omega)
   have sortE := run_map_sorted E 0 20000 b1 nb mE (by omega) (by omega)
   have hlast : d < S (a1 + na - 1) := gtS _ (by omega) (by omega) (by omega)
-  rw [Bool.eq_iff_iff, isOpen_intervalsFromBounds' _ _ d sortS sortE
-    (Or.inr ⟨S (a1 + na - 1), List.mem_map.2 ⟨a1 + na - 1, (mem_yearRun _ _ _).2 ⟨by omega, by omega⟩, rfl⟩, hlast⟩)
-    (by omega),
-    pairSpec_run S E a1 na b1 nb d (by omega) hlast,
+  rw [Bool.eq_iff_iff, isOpen_intervalsFromBounds' _ _ d sortS sortE (by omega),
+    pairSpec_run S E a1 na b1 nb d,
     openOn_widen S E 0 20000 a1 (a1 + na - 1) b1 (b1 + nb - 1) d mS mE (by omega) (by omega)
       ⟨by have := ltS a1 (by omega) (by omega) (by omega); omega, hlast,
         ltE b1 (by omega) (by omega) (by omega),
@@ -813,7 +814,7 @@ theorem single_window_iff (m dd : Nat) (so eo : DateOffset) (d : Int)
       datedOk (.fixed none m dd) so (.fixed none m dd) eo d = true := by
   have hy : 1899 ≤ year d ∧ year d ≤ 9999 := year_window h1 h2
   have hw := yearSpan_bounds so eo hss hes
-  have hwdef : yearSpan so eo = 3 + (so.days.natAbs + eo.days.natAbs) / 365 := rfl
+  have hwdef : yearSpan so eo = 3 + (so.days.natAbs + eo.days.natAbs) / 365 := yearSpan_small so eo hss hes
   have nE := year_sub_near d eo.days
   have iE : InY (year (d - eo.days)) (d - eo.days) := inY_year _
   have iD : InY (year d) d := inY_year d
